@@ -4,7 +4,7 @@
     used for the round trip).  Specification: Wire/SpecEnc.v (spec_enc, encodable), Msg/HeaderSpec.v,
     Msg/MsgSpec.v, Names/Spec.v.  Examples: Msg/Examples.v. *)
 From RB Require Import Base.Prelude Sig.Types Sig.Validator Sig.ParserProofs Wire.Bytes Wire.Align Wire.Text Wire.Value
-  Wire.SpecEnc Wire.Decode Names.Spec Msg.Flags Msg.Header Msg.HeaderSpec Msg.MsgSpec Msg.HeaderDecode Msg.HeaderProofs Msg.Round Msg.Accept.
+  Wire.SpecEnc Wire.Decode Names.Spec Msg.Flags Msg.Header Msg.HeaderSpec Msg.MsgSpec Msg.HeaderDecode Msg.HeaderProofs Msg.Round Msg.Accept Msg.StdMsgs.
 
 (* whenever a message marshals, the header bytes are exactly the specification's header: the 12 fixed bytes
    (with the body length and the serial), the a(yv) value of the message's fields encoded at offset 12 by the
@@ -68,24 +68,59 @@ Theorem C05_flags : forall f x, x < 256 ->
 Proof. exact flags_spec. Qed.
 Print Assumptions C05_flags.
 
-(* the standard_messages constructors (hello, list_names, request_name, release_name, add_match, remove_match; ping;
-   unknown_method, invalid_args) put in valid names and the fields their type requires, whatever their arguments:
-   by C05_accept / C05_roundtrip they can only be refused because of a caller-supplied name or the size limits *)
-Theorem C05_standard_call : forall member body sg nfds, ValidMember member ->
-  let m := with_body (make_standard_msg member) body sg nfds in
-  names_valid m /\ required_present m /\ m_typ m <> MInvalid.
-Proof. exact std_call_valid. Qed.
-Print Assumptions C05_standard_call.
+(* the standard_messages constructors and DynamicHeader::make_error_response, modelled WITH the bodies they push
+   (Msg/StdMsgs.v: every push_param(x).unwrap() is a marshal into the body followed by an unwrap).
+   [std_ok m]: valid names, the fields the type requires, a valid type, a valid signature of what was pushed - so by
+   C05_accept / C05_conformant / C05_roundtrip m marshals (within the size limits) to a conformant header and round-trips.
+   Known finding D24 (class KnownClass_D24: a pushed string argument contains NUL): there the constructor panics. *)
+Theorem C05_standard_nopush : std_hello = Ok (make_standard_msg s_Hello) /\ std_ok (make_standard_msg s_Hello)
+  /\ std_list_names = Ok (make_standard_msg s_ListNames) /\ std_ok (make_standard_msg s_ListNames).
+Proof. exact std_nopush_ok. Qed.
+Print Assumptions C05_standard_nopush.
 
+Theorem C05_standard_request_name : forall name flags,
+  (KnownClass_D24 [name] = true -> std_request_name name flags = Panic) /\
+  (KnownClass_D24 [name] = false -> exists m, std_request_name name flags = Ok m /\ std_ok m /\ m_sig m = [115; 117]).
+Proof. exact std_request_name_spec. Qed.
+Print Assumptions C05_standard_request_name.
+
+(* release_name, add_match, remove_match (member = ReleaseName / AddMatch / RemoveMatch) *)
+Theorem C05_standard_one_string : forall member arg, ValidMember member ->
+  (KnownClass_D24 [arg] = true -> std_one_string member arg = Panic) /\
+  (KnownClass_D24 [arg] = false -> exists m, std_one_string member arg = Ok m /\ std_ok m /\ m_sig m = [115]).
+Proof. exact std_one_string_spec. Qed.
+Print Assumptions C05_standard_one_string.
+
+(* ping / ping_bus push nothing: the destination only goes into the header, an invalid one is refused by marshal *)
 Theorem C05_standard_ping : forall dest, opt_all ValidBusName dest ->
   names_valid (std_ping dest) /\ required_present (std_ping dest) /\ m_typ (std_ping dest) <> MInvalid.
 Proof. exact std_ping_valid. Qed.
 Print Assumptions C05_standard_ping.
 
-Theorem C05_standard_error : forall call_sender call_serial body sg nfds,
-  opt_all ValidBusName call_sender -> call_serial <> None ->
-  let m1 := with_body (std_unknown_method call_sender call_serial) body sg nfds in
-  let m2 := with_body (std_invalid_args call_sender call_serial) body sg nfds in
-  names_valid m1 /\ required_present m1 /\ names_valid m2 /\ required_present m2.
-Proof. exact std_error_valid. Qed.
-Print Assumptions C05_standard_error.
+Theorem C05_standard_error_response : forall c name text,
+  (KnownClass_D24 [or_empty text] = true -> std_make_error_response c name text = Panic) /\
+  (KnownClass_D24 [or_empty text] = false -> opt_all ValidBusName (c_sender c) -> c_serial c <> None -> ValidErrorName name ->
+   exists m, std_make_error_response c name text = Ok m /\ std_ok m).
+Proof. exact std_make_error_response_spec. Qed.
+Print Assumptions C05_standard_error_response.
+
+Theorem C05_standard_unknown_method : forall c,
+  (KnownClass_D24 (pushed_call c) = true -> std_unknown_method_msg c = Panic) /\
+  (KnownClass_D24 (pushed_call c) = false -> opt_all ValidBusName (c_sender c) -> c_serial c <> None ->
+   exists m, std_unknown_method_msg c = Ok m /\ std_ok m).
+Proof. exact std_unknown_method_spec. Qed.
+Print Assumptions C05_standard_unknown_method.
+
+Theorem C05_standard_invalid_args : forall c sg,
+  (KnownClass_D24 (pushed_call c ++ [or_empty sg]) = true -> std_invalid_args_msg c sg = Panic) /\
+  (KnownClass_D24 (pushed_call c ++ [or_empty sg]) = false -> opt_all ValidBusName (c_sender c) -> c_serial c <> None ->
+   exists m, std_invalid_args_msg c sg = Ok m /\ std_ok m).
+Proof. exact std_invalid_args_spec. Qed.
+Print Assumptions C05_standard_invalid_args.
+
+(* the witnesses of known finding D24: the property fails on this class *)
+Theorem C05_standard_nul_refuted : KnownClass_D24 [[97; 0; 98]] = true /\ std_request_name [97; 0; 98] 0 = Panic
+  /\ std_add_match [97; 0] = Panic
+  /\ std_unknown_method_msg {| c_interface := Some [97; 0; 98]; c_member := None; c_object := None; c_sender := None; c_serial := Some 1 |} = Panic.
+Proof. exact std_nul_refuted. Qed.
+Print Assumptions C05_standard_nul_refuted.
